@@ -141,10 +141,9 @@ Lemma cdata_surrogate_old_refuted :
   cd_items (enc_can ELatin1) [0xD800; 0xDC00] [] = [CRef 0x10000].
 Proof. vm_compute. split; reflexivity. Qed.
 
-Lemma win1252_bestfit_refuted :
-  enc_can EWin1252 0xFF1C = true /\ enc_tr EWin1252 [0xFF1C] = Ok [60] /\ tbl win1252_from 60 = 60.
-Proof. vm_compute. repeat split; reflexivity. Qed.
-
-Lemma trailing_high_surrogate_hangs :
-  format_bytes EUtf8 false CharEscapes UnRep_CharRef [97; 0xD800] = Err F_Hang.
-Proof. vm_compute. reflexivity. Qed.
+(** F46 (best-fit entries in the single-byte to-tables) is repaired in the source (57a89d7): over the regenerated
+    table U+FF1C is not representable and is written as a reference *)
+Lemma win1252_bestfit_repaired :
+  enc_can EWin1252 0xFF1C = false /\
+  format_bytes EWin1252 false CharEscapes UnRep_CharRef [0xFF1C] = Ok [38; 35; 120; 70; 70; 49; 67; 59].
+Proof. vm_compute. split; reflexivity. Qed.
